@@ -11,6 +11,12 @@
 #include <string.h>
 #include <m4ri/m4ri.h>
 #include <m4ri/mmc.h>
+#ifdef VX_ICB
+/* ICB builds wrap memset/memcpy to see the library's bulk accesses; harness code bypasses the wrapper */
+void *__real_memset(void *, int, size_t); void *__real_memcpy(void *, const void *, size_t);
+#define memset __real_memset
+#define memcpy __real_memcpy
+#endif
 
 /* harness-side allocation that the allocator wrapper does not count */
 void *vx_malloc(size_t n);
